@@ -1818,7 +1818,7 @@ class sp_elemfun(Contract):
 @register
 class sp_isequal(Contract):
     qual = Q + "isequal"
-    props = ("C03",)
+    props = ("C03", "C06")
     doc = ("S.isequal(O) for two well-formed sptensors of ANY shapes (sparse x sparse branch): the answer is True exactly when the "
            "shapes are equal and Den(S)(r) = Den(O)(r) at every subscript r of that shape -- independent of the stored order.  "
            "Uses the contract of S - O at the call site.  One direction of one path (different counts of stored entries => the "
